@@ -484,5 +484,20 @@ pub fn generate(prop: &str, seed: u64) -> RunSpec {
         script.push(Step { gap, action });
     }
 
+    if prop == "C29"
+        && !script.iter().any(|s| {
+            matches!(s.action, Action::ChangeConfig { .. } | Action::EmmyrcWrite { .. } | Action::Save { .. })
+        })
+    {
+        // C29 scripts contain at least one reload trigger, at a random position
+        let at = r.usize_below(script.len() + 1);
+        let action = if r.chance(1, 2) {
+            Action::ChangeConfig { version: cfg_version + 1 }
+        } else {
+            Action::EmmyrcWrite { diagnostic_interval: Some(100), enable_reindex: p.allow_reindex && r.chance(1, 2), reindex_duration: 1000 }
+        };
+        let gap = gen_gap(&mut r, &p, interval);
+        script.insert(at, Step { gap, action });
+    }
     RunSpec { prop: prop.to_string(), seed, swarm, docs, script, sched, decisions: None, sched_salt: 0 }
 }
